@@ -28,7 +28,7 @@ Definition w_user_prefix_xml_evs : list wevent := [(WStart ((Some [117;114;110;5
    user_prefix_invalid_refuted below isolates clause 0 *)
 Lemma user_prefix_xml_refuted :
   clause_vector default_config w_user_prefix_xml_user w_user_prefix_xml_evs
-  = [false; false; true; true; true; true; true; true; true; true; true]
+  = [false; false; true; true; true; true; true; true; true; true; true; true]
   /\ native_sound_b default_config w_user_prefix_xml_user w_user_prefix_xml_evs = false.
 Proof. vm_compute. repeat split; reflexivity. Qed.
 
